@@ -5,7 +5,11 @@ SPEC = {
     "technique": "(a) exhaustive enumeration of the real status decision function over a boundary grid, asserting only the stated implications; "
                  "(b) differential replicas around REAL validation ceremonies driven by scripted actors: first evaluation vs per-height cache vs "
                  "ceremony objects re-created after a restart in every phase vs replicas with reordered / delayed / lossy / empty mempools vs a node "
-                 "that validated a competing proposal, K re-executions per variant, canonicalised epoch results and full state contents compared",
+                 "that validated a competing proposal vs replicas that saw a MINORITY BLOCK with answers txs and were moved to the canonical chain by the real fork "
+                 "resolver (ResetTo -> BlockchainResetEvent; the txs dropped for good or re-included later; restart before / right after / some blocks after the "
+                 "switch / not at all; switch before or after the network finished the validation), K re-executions per variant, canonicalised epoch results and "
+                 "full state contents compared; (c) the same worlds started from a genesis with TWO shards (job shards), plus an implication oracle on the "
+                 "evidence majority computed from the harness' own record of the evidence txs on chain",
     "level_text": "(a) determineNewIdentityState is evaluated on the complete cross product of 9 prior statuses x 6 required/made-flips cases x 64 flag "
                   "combinations (missed, noQualShort, noQualLong, epoch>=93, upgrade10, upgrade12) x 5 short-session qualified counts x 10 total-flip counts "
                   "around 13/24/32 x 11^3 score triples on 0, 1 and 0.6/0.75/0.92 +-1 float32 ulp (2.3e8 cases, both tiers). "
@@ -14,10 +18,46 @@ SPEC = {
                   "flip submissions through the Flipper, answer hashes, short answers (consistent / wrong salt / wrong words rnd / missing), long answers with grades "
                   "and reports from a per-flip truth and per-actor accuracy, evidence bitmaps (honest / lazy / empty / none). The validation-finishing block built by "
                   "the proposer must be accepted K times by every variant; the canonicalised TotalValidationResult of every evaluation and the full post-state "
-                  "contents must be equal; the stated implications are re-checked on the real outcomes. Held on the epochs run, not a proof.",
+                  "contents must be equal; the stated implications are re-checked on the real outcomes. "
+                  "Minority-block histories (8 of 10 epochs, 8 variants): one or two fully participating candidates hand their long and/or short answers tx (and evidence) "
+                  "to one node only; when no other answers tx is under way that node proposes a block with them, which only the targets (one or both restarted followers, "
+                  "the blind follower, a proposing node) receive and insert; the rest of the network agrees on other blocks. The targets then get onto the canonical chain the way a node does: their top block hashes go to a replica on the "
+                  "canonical chain whose real Blockchain.ReadBlockForForkedPeer answers with the blocks above the common ancestor (one more than the asker's branch has) and their "
+                  "certificates; the target's consensus.ForkResolver checks and applies them (processBlocks/ValidateSubChain, ApplyFork = Blockchain.ResetTo + AddBlock); the reverted "
+                  "txs are re-offered to the own pool as consensus.Engine does; the rest arrives block by block. Variants: the txs never come back (targets are observers) / come back through the pool of a reorganised proposing node; the "
+                  "reorganised replica restarted right after the switch, 1-2 blocks later (before / after the re-inclusion), only at the final block, not at all, or in an "
+                  "earlier phase; the switch happens two blocks later, or (late variants) the minority block sits in the last slot before the validation-finishing block and the "
+                  "target comes back after the network finished the validation, so that the peer's two-block answer contains the validation-finishing block (with a control history "
+                  "in which both branches carry the same ceremony txs). All replicas end on the same canonical chain and are compared as above. "
+                  "(c) Job shards: 20 (quick) / 112 (thorough) worlds whose genesis state has ShardsNum=2 and every identity assigned to shard 1 or 2 (smaller shard 1/4..1/2 "
+                  "of the identities), one complete epoch each with everything of (b); evidence bitmaps are built per shard over the ceremony's own per-shard candidate list; "
+                  "per shard up to two fully participating candidates commit their answers hash only in the long session (hash, short and long answers on chain, but no "
+                  "honest evidence map of their shard confirms them), preferably at list positions where the other shard's candidate IS confirmed. In both jobs every "
+                  "candidate that at most half of the evidence maps of its own shard confirm must not be validated afterwards. Held on the epochs run, not a proof.",
     "level_note": "Readings: 'missed the session' = the `missed` input of the decision function (in ApplyNewEpoch: not approved by the on-chain evidence majority, or no short "
                   "answers, or no long answers recorded from blocks before the validation-finishing block); noQualShort/noQualLong do NOT exempt a missed identity in the "
-                  "code (missed is tested first), so the implication is asserted for all flag combinations. 'lacked its required flips' = len(Flips) < RequiredFlips. "
+                  "code (missed is tested first), so the implication is asserted for all flag combinations. "
+                  "Evidence part of 'missed' (oracle rule:real:evidence-minority-validated): a ceremony candidate of shard s is NOT confirmed if at most half of the evidence "
+                  "maps that candidates of shard s have in blocks BEFORE the validation-finishing block set its bit (a tie is no majority; CalculateApprovedCandidates "
+                  "asks for len/2+1); such a candidate must not be Newbie/Verified/Human afterwards. Only this direction is asserted (the property "
+                  "does not promise validation to anybody); a shard without any evidence map is not judged; void ceremonies are excluded as below. The maps are the harness' own record "
+                  "(which candidates of its shard each sender confirmed, whether and where the tx was included), not read back from the node. Maps of other shards index another "
+                  "candidate list and say nothing about the candidate; the counter unconfirmed_only_by_evidence_with_foreign_majority counts candidates for which the bits other shards' "
+                  "maps have at the same list position WOULD make up a majority of all maps (where counting foreign maps would show). "
+                  "Two shards: the simulator pre-populates the state every replica generates its genesis block from (Options.GenesisTweak: ShardsNum, ShardId per identity, shard sizes); "
+                  "no code is changed. balanceShards merges so small a network into one shard in the first validation-finishing block, so a two-shard ceremony is always the first "
+                  "ceremony of a world: only god has flips, the shard without god has none (noQualShort path: the outcome of its candidates hangs on `missed` alone). "
+                  "Minority block: built by a harness-fed observer owned by a node identity with the real ProposeBlock, received by the targets through the normal receiving path; "
+                  "the minority branch is one block deep, the peer's fork answer therefore two blocks (late variants: the second one is the validation-finishing block); fork "
+                  "bundles carry the real quorum certificates the harness' key holders sign. The history is started only when no other answers tx waits in a pool or on the wire, "
+                  "because ANY later new answers tx rewrites the whole persisted answer store (which would mask a stale store). "
+                  "GENUINE FINDING of the late variant on the unchanged tree (signature epoch-result-differs:fork-with-validation-finishing-block:branches-differ-in-ceremony-txs): "
+                  "a node whose own branch differs from the canonical one in ceremony txs above the common ancestor (here: it inserted a block with a late answers tx in the last "
+                  "slot before the validation-finishing block) refuses the certified fork answer that contains the validation-finishing block with 'invalid block roots' (or, when the "
+                  "state roots happen to coincide, adopts it with a different TotalValidationResult): ValidateSubChain evaluates the epoch through ValidationCeremony.ApplyNewEpoch from the ceremony store of the node's OWN branch "
+                  "(answers/evidence of reverted blocks are dropped only by ResetTo, those of the fork's blocks added only by AddBlock, both after the fork was validated); a restart "
+                  "does not help (the store is persisted), a wipe + sync from genesis does; the control history (same ceremony txs on both branches) is adopted. "
+                  "'lacked its required flips' = len(Flips) < RequiredFlips. "
                   "'never come back' is read as: prior Killed/Undefined => result in {Killed, Undefined} (an Undefined identity that lacks flips is reported Killed by the "
                   "function; both are 'terminated'). On real outcomes a killed identity reads back as Undefined because its object is removed. "
                   "A VOID ceremony (nobody at all qualifies: ApplyNewEpoch returns Failed and leaves every status untouched by design) is excluded from the outcome "
@@ -27,12 +67,13 @@ SPEC = {
                   "map iteration order (signature epoch-result-order-dependent:transitive-delegation-chain); the 3-link chain is built only in the last epoch of every "
                   "second world because the world rarely survives it.",
     "rule": "case = one evaluation of the decision function on one grid point, or one execution of one validation-finishing block by one variant "
-            "(proposer cached / node first+cached / sees-all / blind / restarted-in-phase / fresh object / after a competing proposal); "
+            "(proposer cached / node first+cached / sees-all / blind / restarted-in-phase / fresh object / after a competing proposal / after a fork switch that reverted answers txs); "
             "distinct_nontrivial = distinct (prior, flips case, flags, outcome) classes reached from score triples on a threshold boundary, "
             "plus distinct real epochs (final block hash) in which at least one identity changed status",
     "jobs": [
         Job("rules", "core/ceremony", "^TestVerifC17Rules$", shards=(4, 8), timeout=(600, 1200)),
         Job("real", "verifsim", "^TestVerifC17Real$", shards=(8, 16), timeout=(1200, 5400)),
+        Job("shards", "verifsim", "^TestVerifC17Shards$", shards=(4, 8), timeout=(1200, 5400)),
     ],
     "parallel": 16,
     "floors": {
@@ -60,9 +101,36 @@ SPEC = {
         "real_prior_Suspended": (25, 550), "real_prior_Zombie": (8, 280), "real_prior_Invite": (15, 380), "real_prior_Undefined": (10, 300),
         "real_epochs_with_rewarded_reporters": (8, 220), "real_epochs_with_bad_authors": (8, 220), "real_epochs_with_pools": (12, 300),
         "distinct_map_orders_witnessed": (400, 20000),
+        # (b) minority-block histories (variant and target sets are functions of (process shard, world, epoch); whether a history can be
+        # played depends on the PRNG-driven mempools: wide margin)
+        "answers_reorgs": (20, 260), "answers_reorgs_in_long": (5, 60), "answers_reorgs_in_afterlong": (8, 100),
+        "answers_reorg_variant_0": (3, 36), "answers_reorg_variant_1": (3, 36), "answers_reorg_variant_2": (3, 36), "answers_reorg_variant_3": (3, 36),
+        "answers_reorg_variant_4": (3, 36), "answers_reorg_variant_5": (3, 36), "answers_reorg_variant_6": (2, 30), "answers_reorg_variant_7": (2, 30),
+        "epochs_without_answers_reorg_planned": (5, 60),
+        "answers_txs_reverted": (36, 450), "answers_txs_reverted_not_reincluded": (24, 300), "answers_txs_reverted_reincluded": (10, 120),
+        "evidence_txs_reverted_not_reincluded": (4, 50),
+        "epochs_with_dropped_answers": (12, 150), "victims_whose_outcome_hangs_on_dropped_answers": (12, 150),
+        "restart_after_answers_reorg": (34, 420), "replicas_restarted_after_dropping_reorg": (15, 190), "replicas_not_restarted_after_dropping_reorg": (5, 60),
+        "replicas_restarted_before_answers_reorg": (18, 220), "evals_by_replica_after_answers_reorg": (110, 2000),
+        "late_partitions_branches-differ-in-ceremony-txs": (2, 30), "late_partitions_same-ceremony-txs-on-both-branches": (2, 30),
+        # evidence implication, job real (one shard)
+        "evidence_maps_on_chain_shard1": (220, 3000), "real_confirmed_by_evidence": (450, 6000), "real_unconfirmed_by_evidence": (50, 700),
+        "real_unconfirmed_by_evidence_only": (8, 120),
+        # (c) job shards: the world structure is a function of (tier, shard)
+        "ms_epochs_with_two_shards": (16, 90), "ms_real_epochs_finished": (16, 90), "ms_shards_after_first_validation_1": (16, 90),
+        "ms_ceremony_candidates_shard1": (170, 950), "ms_ceremony_candidates_shard2": (170, 950),
+        "ms_evidence_maps_on_chain_shard1": (100, 560), "ms_evidence_maps_on_chain_shard2": (100, 560),
+        "ms_planted_unseen_candidates": (50, 280), "ms_real_shards_without_flips": (16, 90),
+        "ms_real_confirmed_by_evidence": (250, 1400), "ms_real_unconfirmed_by_evidence": (90, 500), "ms_real_unconfirmed_by_evidence_only": (50, 280),
+        "ms_unconfirmed_with_foreign_majority_at_same_index": (25, 140), "ms_unconfirmed_only_by_evidence_with_foreign_majority": (15, 85),
+        "ms_evals_first_pass": (180, 1000), "ms_evals_cache_hit": (450, 3500), "ms_restart_at_final": (30, 330),
+        "ms_answers_reorgs": (6, 35), "ms_answers_txs_reverted_not_reincluded": (4, 30),
     },
     "assumptions": [
-        "one shard (shard balancing needs thousands of identities); multi-shard lotteries are observed at function level under C16",
+        "two-shard ceremonies are always the FIRST ceremony of a world (a network below 2400 identities per shard is merged into one shard by the validation-finishing block), "
+        "so they have at most god's flips; lotteries with flips in several shards are observed at function level under C16",
+        "the minority branch of a reorganisation is one block deep and is proposed by a harness-fed observer owned by a node identity; the reorganised replicas are followers or one "
+        "proposing node; a reorganisation of ALL replicas at once is not played",
         "consensus V12 in 6 of 8 shards, V11 and V10 in one each (validation.SetAppConfig is process-global: one version per child process)",
         "KillTx / KillDelegatorTx / DelegateTx are refused from the flip lottery on, so 'killed mid-ceremony' is only reachable before the lottery (after flips were submitted)",
         "node identities are Human and answer perfectly so that proposed blocks keep coming; the god node sees every tx at once and numbers nonces",
